@@ -124,6 +124,11 @@ func LengthWindow(n *model.Node) (int, int, bool) {
 
 var (
 	dateGen = rapid.Custom(func(t *rapid.T) string {
+		if rapid.IntRange(0, 7).Draw(t, "special") == 0 {
+			// calendar corners: leap days (also of years divisible by 400 and by 4 only), month ends
+			return rapid.SampledFrom([]string{"2000-02-29", "2400-02-29", "1600-02-29", "2024-02-29", "0004-02-29", "1996-02-29",
+				"2023-12-31", "1999-01-31", "2021-04-30", "9999-12-31", "0001-01-01"}).Draw(t, "specialdate")
+		}
 		return fmt.Sprintf("%04d-%02d-%02d", rapid.IntRange(1, 9999).Draw(t, "y"), rapid.IntRange(1, 12).Draw(t, "m"), rapid.IntRange(1, 28).Draw(t, "d"))
 	})
 	timeGen = rapid.Custom(func(t *rapid.T) string {
